@@ -57,3 +57,36 @@ Definition layer_set_column_style (down up : Z -> Z) (l : layer) (c i : Z) : out
   | Ok cs => Ok (mkLayer (l_cells l) (l_rows l) cs)
   | _ => Err
   end.
+
+(* ---- every attribute operation that can precede a styled read-back, on the layer ------------------
+   (Model::set_cell_style / set_row_style / set_column_style with the index already interned,
+   set_row_height, set_row_hidden, delete_row_style, set_column_width, set_column_hidden,
+   delete_column_style).  A refused call keeps the layer. *)
+Inductive lop :=
+| LCell (r c i : Z) | LRowStyle (r i : Z) | LColStyle (c i : Z)
+| LRowHeight (r h : Z) | LRowHidden (r : Z) (b : bool) | LRowDel (r : Z)
+| LColWidth (c w : Z) | LColHidden (c : Z) (b : bool) | LColDel (c : Z).
+
+Definition with_rows (l : layer) (o : outcome rows) : outcome layer :=
+  match o with Ok rs => Ok (mkLayer (l_cells l) rs (l_cols l)) | _ => Err end.
+Definition with_cols (l : layer) (o : outcome cols) : outcome layer :=
+  match o with Ok cs => Ok (mkLayer (l_cells l) (l_rows l) cs) | _ => Err end.
+
+Definition apply_lop (down up : Z -> Z) (l : layer) (o : lop) : outcome layer :=
+  match o with
+  | LCell r c i => set_cell_style l r c i
+  | LRowStyle r i => layer_set_row_style down l r i
+  | LColStyle c i => layer_set_column_style down up l c i
+  | LRowHeight r h => with_rows l (Rows.set_row_height down (l_rows l) r h)
+  | LRowHidden r b => with_rows l (Rows.set_row_hidden down (l_rows l) r b)
+  | LRowDel r => with_rows l (Rows.delete_row_style (l_rows l) r)
+  | LColWidth c w => with_cols l (Cols.set_column_width down (l_cols l) c w)
+  | LColHidden c b => with_cols l (Cols.set_column_hidden down up (l_cols l) c b)
+  | LColDel c => with_cols l (Cols.delete_column_style (l_cols l) c)
+  end.
+
+Definition step_lop (down up : Z -> Z) (l : layer) (o : lop) : layer :=
+  match apply_lop down up l o with Ok l' => l' | _ => l end.
+
+(* Model::get_cell_style_or_none at index level: only the cell's own style *)
+Definition get_cell_style_or_none (l : layer) (r c : Z) : option Z := cell_style r c (l_cells l).
